@@ -16,7 +16,31 @@ fn tmp() -> String {
 }
 
 /// the word counts train_bpe starts from (mirror of its counting closure)
-fn word_counts(lines: &[String], norm: bool) -> Vec<(Vec<u8>, u64)> {
+/// how the corpus lines are spread over files: `nfiles` files of (almost) equal size, each read up to
+/// `max_lines_per_file` lines (0 = no limit, k + 1 = Some(k))
+#[derive(Clone, Copy, PartialEq)]
+pub struct Layout {
+    pub nfiles: u64,
+    pub maxl: u64,
+}
+
+fn chunks(lines: &[String], lay: Layout) -> Vec<Vec<String>> {
+    let nf = lay.nfiles.max(1) as usize;
+    let per = lines.len().div_ceil(nf).max(1);
+    let mut v: Vec<Vec<String>> = lines.chunks(per).map(|c| c.to_vec()).collect();
+    while v.len() < nf {
+        v.push(vec![]);
+    }
+    v
+}
+
+/// the lines train_bpe actually reads: the first max_lines_per_file lines of EVERY file
+fn used_lines(lines: &[String], lay: Layout) -> Vec<String> {
+    chunks(lines, lay).into_iter().flat_map(|c| if lay.maxl == 0 { c } else { c.into_iter().take(lay.maxl as usize - 1).collect() }).collect()
+}
+
+fn word_counts(lines: &[String], norm: bool, lay: Layout) -> Vec<(Vec<u8>, u64)> {
+    let lines = &used_lines(lines, lay);
     let mut m: HashMap<String, u64> = HashMap::new();
     for l in lines {
         let mut line = clean(l, true);
@@ -32,20 +56,22 @@ fn word_counts(lines: &[String], norm: bool) -> Vec<(Vec<u8>, u64)> {
     v
 }
 
-fn train(lines: &[String], n_merges: usize, norm: bool, threads: u8) -> Result<Vec<(Vec<u8>, u32)>, String> {
+fn train(lines: &[String], n_merges: usize, norm: bool, threads: u8, lay: Layout) -> Result<Vec<(Vec<u8>, u32)>, String> {
     let dir = tmp();
-    let p = format!("{dir}/corpus.txt");
-    {
+    let mut paths = vec![];
+    for (k, chunk) in chunks(lines, lay).iter().enumerate() {
+        let p = format!("{dir}/corpus-{k}.txt");
         let mut f = std::fs::File::create(&p).map_err(|e| e.to_string())?;
-        for l in lines {
+        for l in chunk {
             writeln!(f, "{l}").map_err(|e| e.to_string())?;
         }
+        paths.push(p);
     }
     // vocab_size must be a multiple of 64: choose num_special_tokens so that exactly n_merges merges are requested
     let vocab_size = 384usize;
     let num_special = vocab_size - 256 - n_merges;
     let out = format!("{dir}/merges.bin");
-    train_bpe(&[p], vocab_size, num_special, &out, None, if norm { Some(Normalization::NFKC) } else { None }, threads, false).map_err(|e| e.to_string())?;
+    train_bpe(&paths, vocab_size, num_special, &out, if lay.maxl == 0 { None } else { Some(lay.maxl as usize - 1) }, if norm { Some(Normalization::NFKC) } else { None }, threads, false).map_err(|e| e.to_string())?;
     let m = MergeOps::load(&out).map_err(|e| e.to_string())?;
     let mut t: Vec<(Vec<u8>, u32)> = m.into_iter().collect();
     t.sort_by_key(|e| e.1);
@@ -195,14 +221,15 @@ pub fn exec(op: &str, a: &[u64]) -> Result<Outcome, String> {
     let n = r.usize()?;
     let norm = r.bool()?;
     let threads = r.nat()? as u8;
+    let lay = Layout { nfiles: r.nat()?, maxl: r.nat()? };
     let lines: Vec<String> = r.list(|r| r.string())?;
     let words: Vec<(Vec<u8>, u64)> = r.list(|r| Ok((r.bytes()?, r.nat()?)))?;
     let table_req: Vec<(Vec<u8>, u32)> = r.list(|r| Ok((r.bytes()?, r.nat()? as u32)))?;
     r.end()?;
-    if word_counts(&lines, norm) != words {
+    if word_counts(&lines, norm, lay) != words {
         return Err("word counts in request differ from the corpus".into());
     }
-    let table = train(&lines, n, norm, threads)?;
+    let table = train(&lines, n, norm, threads, lay)?;
     let mut o = Outcome::new("accept".to_string());
     // tie-breaking among equally frequent pairs depends on hash order: the generating run's table (in the
     // request) is judged by the model; this run's table by the oracle
@@ -212,7 +239,7 @@ pub fn exec(op: &str, a: &[u64]) -> Result<Outcome, String> {
     }
     for t in [0u8, 1, 3] {
         if t != threads {
-            match train(&lines, n, norm, t) {
+            match train(&lines, n, norm, t, lay) {
                 Ok(t2) => {
                     if let Err(e) = oracle_greedy(&words, n, &t2) {
                         o.check(false, &format!("C19 (threads={t}): {e}"));
@@ -251,8 +278,10 @@ pub fn run_c19(ctx: &mut Ctx) {
         let n = [2usize, 4, 60, 124][ctx.rng.random_range(0..4)];
         let norm = ctx.rng.random_bool(0.5);
         let threads = [0u8, 1, 3][ctx.rng.random_range(0..3)];
-        let words = word_counts(&lines, norm);
-        let mut v = vec![n as u64, norm as u64, threads as u64, lines.len() as u64];
+        // one file and no limit for half of the corpora; otherwise 2-3 files and / or max_lines_per_file
+        let lay = if ctx.rng.random_bool(0.5) { Layout { nfiles: 1, maxl: 0 } } else { Layout { nfiles: ctx.rng.random_range(1..=3), maxl: ctx.rng.random_range(0..=4) } };
+        let words = word_counts(&lines, norm, lay);
+        let mut v = vec![n as u64, norm as u64, threads as u64, lay.nfiles, lay.maxl, lines.len() as u64];
         for l in &lines {
             enc_str(&mut v, l);
         }
@@ -261,7 +290,7 @@ pub fn run_c19(ctx: &mut Ctx) {
             enc_bytes(&mut v, w);
             v.push(*c);
         }
-        match train(&lines, n, norm, threads) {
+        match train(&lines, n, norm, threads, lay) {
             Ok(t) => {
                 v.push(t.len() as u64);
                 for (b, id) in &t {
